@@ -260,6 +260,24 @@ def _matricize(case, ctx, shape):
     ctx.check(same(denote(M2), A), "tenmat.__init__", "WRONG", "tenmat built from (matrix, rdims, cdims, tshape) denotes another tensor")
     B2 = ctx.must("tenmat.to_tensor", M2.to_tensor)
     ctx.check(same(denote(B2), A), "tenmat.to_tensor", "WRONG", "matrix -> tensor differs")
+    # ---- Kruskal: the same call form (explicit splits, only-rdims / only-cdims, the cyclic column conventions) ----
+    if N >= 1 and all(s_ >= 1 for s_ in shape):
+        import zlib
+
+        krng = np.random.default_rng(zlib.crc32(repr((shape, case["form"], case["rdims"], case["cdims"])).encode()))
+        Rk = int(krng.integers(1, 4))
+        wk_, fmk = gen.rand_ktensor_parts(krng, shape, Rk)
+        K = gen.mk_ktensor(ttb, wk_, fmk)
+        refK = denote(K)
+        rk = ctx.call("ktensor.to_tenmat", K.to_tenmat, **kw)
+        if rk.ok:
+            MK = rk.value
+            okm = (list(np.asarray(MK.rindices).reshape(-1)) == r and list(np.asarray(MK.cindices).reshape(-1)) == c and tuple(MK.tshape) == shape)
+            ctx.check(okm, "ktensor.to_tenmat", "WRONG-META", f"rindices {MK.rindices} cindices {MK.cindices} tshape {MK.tshape}; want r={r} c={c}", form=case["form"])
+            okv = np.asarray(MK.data).shape == reference_matricize(refK, r, c).shape and close(np.asarray(MK.data), reference_matricize(refK, r, c)) and close(denote(MK), refK)
+            ctx.check(okv, "ktensor.to_tenmat", "WRONG", "ktensor.to_tenmat differs from the matricized Kruskal tensor", form=case["form"], holder="ktensor")
+        else:
+            ctx.check(False, "ktensor.to_tenmat", "RAISE:" + type(rk.exc).__name__, f"{rk.exc} | {rk.tb}", form=case["form"])
     # ---- sparse -----------------------------------------------------------------------
     S = gen.mk_sptensor(ttb, A, case["order"])
     SM = ctx.must("sptensor.to_sptenmat", S.to_sptenmat, **kw)
